@@ -4,6 +4,7 @@ monitor: reference-model oracle (vlib.refdt) over (datatype tree, candidate, pre
 on the wire path validate(import_value(c), previous) - exactly what the dispatcher does - and on the
 driver path T(v) / T.validate(v, previous)."""
 import json
+import zlib
 import random
 
 from vlib import rec, refdt, gen_dt
@@ -102,7 +103,16 @@ class Monitor:
             if path == 'wire':
                 res = dt.validate(dt.import_value(cand), previous=prev)
             elif path == 'drv-validate':
-                res = dt.validate(cand, previous=prev)
+                offered = cand
+                if zlib.crc32(repr(cand).encode('utf-8', 'replace')) % 3 == 0:
+                    # the usual driver flow: the value was first converted (datatype(value): conversion only, limits
+                    # are not checked there) and the converted object is validated afterwards
+                    try:
+                        offered = dt(cand)
+                        r.count('drv_validate_after_conversion')
+                    except Exception:
+                        offered = cand
+                res = dt.validate(offered, previous=prev)
             else:
                 res = dt(cand)
             got = 'ok'
